@@ -203,7 +203,7 @@ def add_noise(lines, tape, rate):
     return out, n_noise
 
 
-def make_schedule(tape, model, channel=None, noise=True):
+def make_schedule(tape, model, channel=None, noise=True, eols=True):
     t = tape
     sch = Schedule()
     ch = chunks_of(model, t, multiline_pct=t.choice([0, 0, 15, 40]))
@@ -227,6 +227,9 @@ def make_schedule(tape, model, channel=None, noise=True):
         shape['files_per_ns'].append(nfiles)
     files = t.shuffle(files)
     used = set()
+    # line endings: a spec saved on another platform (CRLF) or edited on both (mixed) is the same text
+    eol = t.weighted([(76, 'lf'), (16, 'crlf'), (8, 'mixed')]) if eols else 'lf'
+    shape['eol'] = eol
     for i, (ns_name, bucket, doc) in enumerate(files):
         lines = ['namespace %s' % ns_name] + list(doc)
         for kind, chunk in bucket:
@@ -237,6 +240,11 @@ def make_schedule(tape, model, channel=None, noise=True):
             lines, n = add_noise(lines, t, rate)
             shape['noise'] += n
         text = '\n'.join(lines) + ('\n' if t.chance(90) else '')
+        if eol == 'crlf':
+            text = text.replace('\n', '\r\n')
+        elif eol == 'mixed':
+            text = ''.join(seg + ('\r\n' if t.chance(50) else '\n') for seg in text.split('\n')[:-1]) + \
+                text.split('\n')[-1]
         shape['multiline'] += sum(1 for ln in lines if ln.rstrip().endswith('(') or ln.rstrip().endswith(','))
         stem = t.choice(['a', 'b', 'z', 'm', ns_name, ns_name + '_x', 'zz_' + ns_name, '0' + ns_name])
         name = '%s_%d.stone' % (stem, i)
@@ -254,5 +262,6 @@ def make_schedule(tape, model, channel=None, noise=True):
 
 def shape_key(sch):
     s = sch.shape
-    return '%s|files=%s|noise=%s|ml=%s' % (s['channel'], sorted(s['files_per_ns'], reverse=True),
-                                           'y' if s['noise'] else 'n', 'y' if s['multiline'] else 'n')
+    return '%s|files=%s|noise=%s|ml=%s|%s' % (s['channel'], sorted(s['files_per_ns'], reverse=True),
+                                              'y' if s['noise'] else 'n', 'y' if s['multiline'] else 'n',
+                                              s.get('eol', 'lf'))
